@@ -46,6 +46,20 @@ HARNESSES = [
       strength="B(out<=16,in<=4 bytes; complete in every register, table entry, flag and position)"),
     H("k_prologue_done_forever", "K-prologue", ["C06", "C08", "C09", "C13", "C16"], fns=["decompress_with_limit (DoneForever exit, epilogue checksum verdict)"], cost=30,
       strength="B(out<=16,in<=4 bytes; complete in every register, table entry, flag and position)"),
+    # ---- K-arms (state-machine arms, mechanically extracted) ----
+    *[H(n, "K-arms", sv, cost=60, timeout=900, fns=f,
+        strength="B(input<=8, output<=32 bytes; complete in the whole decoder object, registers, flags, positions, budget)", note=nt)
+      for (n, sv, f, nt) in (
+        ("k_arm_raw_header", ["C03", "C04", "C05", "C06", "C07", "C08", "C12", "C13"], ["arm RawHeader", "read_bits", "read_byte"], ""),
+        ("k_arm_raw_memcpy", ["C03", "C04", "C05", "C07", "C08", "C13"], ["arm RawMemcpy1", "arm RawMemcpy2", "OutputBuffer::write_slice", "InputWrapper::advance"], ""),
+        ("k_arm_raw_first_byte", ["C03", "C04", "C05", "C07", "C08", "C13"], ["arm RawReadFirstByte", "arm RawStoreFirstByte", "OutputBuffer::write_byte"], ""),
+        ("k_arm_write_len_bytes_to_end", ["C03", "C04", "C05", "C06", "C07", "C08", "C13"], ["arm WriteLenBytesToEnd"], "transfer/apply_match replaced by contract models asserting their preconditions (real ones: V-transfer)"),
+        ("k_arm_huff_decode_outer_loop2", ["C03", "C04", "C05", "C07", "C08", "C13"], ["arm HuffDecodeOuterLoop2"], "transfer/apply_match replaced by contract models asserting their preconditions (real ones: V-transfer)"),
+        ("k_arm_symbols", ["C03", "C04", "C05", "C06", "C07", "C08", "C13"], ["arm HuffDecodeOuterLoop1", "arm WriteSymbol", "arm ReadExtraBitsLitlen", "arm ReadExtraBitsDistance", "read_bits"], ""),
+        ("k_arm_block_header", ["C03", "C04", "C05", "C06", "C07", "C08", "C13", "C18"], ["arm ReadBlockHeader", "arm ReadTableSizes", "start_static_table", "read_bits"], "init_tree replaced by a contract model (no tractable proof of init_tree itself, see DESIGN.md)"),
+        ("k_arm_start_and_zlib_header", ["C04", "C05", "C06", "C08", "C09", "C13", "C16", "C18"], ["arm Start", "arm ReadZlibCmf", "arm ReadZlibFlg", "validate_zlib_header", "read_byte"], ""),
+        ("k_arm_block_done_and_adler", ["C03", "C05", "C06", "C07", "C08", "C09", "C13"], ["arm BlockDone", "arm ReadAdler32", "pad_to_bytes", "undo_bytes", "read_bits"], ""),
+      )],
     # ---- K-inflate (streaming wrapper against the M-decompress contract model) ----
     H("k_inflate_protocol", "K-inflate", ["C04", "C05", "C06", "C07", "C09", "C13"], fns=["inflate", "inflate_loop", "push_dict_out", "InflateState::new"],
       cost=60, strength="B(in<=3,out<=3 bytes => loop<=8 iterations, unwinding assertion on; complete in wrapper state, flags, flush, engine results)",
